@@ -27,13 +27,13 @@ def mk_backoff(maxre, fct):
         from aiocoap.message import Message, Direction
         from aiocoap.numbers.constants import TransportTuning
         from aiocoap.numbers.types import CON, ACK, RST, NON
-        from aiocoap.numbers.codes import GET, EMPTY
+        from aiocoap.numbers.codes import GET, EMPTY, CONTENT
         from aiocoap import error
         R = mmkit.setup()
 
         def h(ack_timeout: int, t0: int, t_reply: int, kind: int, prior: int) -> None:
             assert 1 <= ack_timeout <= 100000 and ack_timeout <= t0 <= ack_timeout * fct
-            assert 0 <= t_reply <= 100000 * 3 * 200 and 0 <= kind <= 5 and 0 <= prior <= 3
+            assert 0 <= t_reply <= 100000 * 3 * 200 and 0 <= kind <= 7 and 0 <= prior <= 3
             R.draw = t0
             R.calls = []
 
@@ -68,13 +68,17 @@ def mk_backoff(maxre, fct):
                 n_before = len(mi.sent)
                 gave_up_before = len(tm.errors)
                 if kind != 5:
-                    a = Message(code=EMPTY, _mtype=RST if kind in (1, 4) else ACK,
-                                _mid=(m.mid + 1) % 65536 if kind == 2 else m.mid)
+                    # 6 / 7: the ACK carries a piggy-backed response that the token layer accepts / no longer knows (the
+                    # application gave up meanwhile): the message ID is acknowledged either way
+                    a = Message(code=CONTENT if kind >= 6 else EMPTY, _mtype=RST if kind in (1, 4) else ACK,
+                                _mid=(m.mid + 1) % 65536 if kind == 2 else m.mid, _token=b"\x01" if kind >= 6 else b"")
                     a.remote = other if kind in (3, 4) else r
                     a.direction = Direction.INCOMING
+                    tm.response_ok = kind != 7
                     mm.dispatch_message(a)
                     loop.run_ready()
-                stops = kind in (0, 1)
+                    assert [s for s in mi.sent[n_before:] if s[1] is not m] == [], "an ACK / RST is never answered"
+                stops = kind in (0, 1, 6, 7)
                 loop.drain()
                 sent = mi.sent
                 fired = 0
@@ -115,13 +119,13 @@ def mk_client(maxre):
         from vf.simloop import SimLoop
         from aiocoap.message import Message
         from aiocoap.numbers.types import CON, ACK, RST, NON
-        from aiocoap.numbers.codes import GET, EMPTY
+        from aiocoap.numbers.codes import GET, EMPTY, CONTENT
         from aiocoap import error
         stack.configure(ack_timeout=2000, ack_random_factor=2, max_retransmit=maxre)
         import aiocoap.messagemanager as mmod
 
         def h(t0: int, t_reply: int, kind: int) -> None:
-            assert 2000 <= t0 <= 4000 and 0 <= t_reply <= 4000 * 130 and 0 <= kind <= 5
+            assert 2000 <= t0 <= 4000 and 0 <= t_reply <= 4000 * 130 and 0 <= kind <= 7
             mmod.random.u = t0
             with SimLoop() as loop:
                 S = stack.StackS(loop)
@@ -142,8 +146,10 @@ def mk_client(maxre):
                 loop.advance_to(t_reply)
                 n_before = len(S.tr.sent)
                 if kind != 5:
-                    a = Message(code=EMPTY, _mtype=RST if kind in (1, 4) else ACK,
-                                _mid=(first.mid + 1) % 65536 if kind == 2 else first.mid)
+                    # 6: piggy-backed response; 7: piggy-backed response on a token that is not (no longer) known
+                    a = Message(code=CONTENT if kind >= 6 else EMPTY, _mtype=RST if kind in (1, 4) else ACK, payload=b"pb" if kind >= 6 else b"",
+                                _mid=(first.mid + 1) % 65536 if kind == 2 else first.mid,
+                                _token=first.token if kind == 6 else (b"\x77\x66" if kind == 7 else b""))
                     S.deliver(a.encode(), stack.R1 if kind in (3, 4) else stack.R0)
                 loop.drain()
                 deadlines = [t0 * (2 ** (i + 1) - 1) for i in range(maxre + 1)]
@@ -154,12 +160,14 @@ def mk_client(maxre):
                 sent = S.tr.sent
                 assert all(d == sent[0][0] and a == sent[0][1] for (d, a, t) in sent)
                 assert [t for (d, a, t) in sent] == ([0] + deadlines[:maxre])[:len(sent)]
-                if kind in (0, 1) and fired <= maxre:
+                if kind in (0, 1, 6, 7) and fired <= maxre:
                     assert len(sent) == n_before == 1 + fired
                     if kind == 1:
                         assert done == [t_reply]
                         exc = rq.response.exception()
                         assert isinstance(exc, error.Error)
+                    elif kind == 6:
+                        assert done == [t_reply] and rq.response.result().payload == b"pb"
                     else:
                         assert done == []     # acknowledged, response may still come
                 else:
@@ -236,7 +244,7 @@ def obligations(tier):
             functions=FUNCS,
             symbolic={"ACK_TIMEOUT": "[1,100000]", "t0 (first time-out draw)": "[ACK_TIMEOUT, ACK_TIMEOUT*ARF]",
                       "t_reply (arrival instant of the reply)": "[0, 6e7]",
-                      "kind": "0 ACK / 1 RST / 2 ACK wrong MID / 3 ACK wrong source / 4 RST wrong source / 5 none",
+                      "kind": "0 ACK / 1 RST / 2 ACK wrong MID / 3 ACK wrong source / 4 RST wrong source / 5 none / 6 ACK with piggy-backed response / 7 ACK with a response whose token is no longer known",
                       "prior": "history: 0 none / the peer earlier sent a NON request, empty ACK or CON request carrying the same message ID"},
             concrete={"MAX_RETRANSMIT": k, "ACK_RANDOM_FACTOR": f},
             stubs=["random.uniform -> explicit draw", "SimLoop", "RecTokenManager/RecMessageInterface"]))
